@@ -19,9 +19,9 @@ PROPS = {
         'assumptions': ['time.Time/time.Duration modelled as unbounded Z nanoseconds (no saturation of time.Add near +-292 years)',
                         'message arrival times of a history are non-decreasing (monotonic clock)',
                         'atomic operations of Monitor/KeepAlive are modelled sequentially: one event at a time (no concurrent Notify/CheckInactivity interleaving inside one event)'],
-        'level_text': 'Coq theorems (Properties/C18.v) over ALL event histories of {message received, pong for generation g, pong callback, tick at t, server datagram-path tick}: every trace of the model of inactivity.Monitor + KeepAlive (as wired by options.WithKeepAlive) passes the property judge written from the property text (closed only if idle for a full period, closed/acted at the first idle tick, keep-alive closes exactly at failure max+1 counted since the last received message or credited pong, late pongs not credited). Model tied to the real Monitor/KeepAlive and to udp client Conn + pkg/connections by differential evaluation of event histories on a nanosecond-exact virtual clock.',
-        'level_note': 'Trusted: Coq kernel + vm_compute, the harness and its virtual clock. Sequential model of the atomics; the stream (tcp) session calls the same Monitor through the same two entry points and is covered by the component drivers only.',
-        'explanation': 'Theorems: model traces satisfy the judge for all histories (C18_spec_all) with corollaries only_if_idle, first_tick, keepalive_close, reset, late_pong. Correspondence: histories with spacings at period -200ms/-1ns/0/+1ns/+200ms, several ticks per period, pongs for old pings, retry limits 0-3, failing ping writes, on inactivity.Monitor/KeepAlive directly, through pkg/connections, and through a udp client Conn over an in-memory session wired by the options package.',
+        'level_text': 'Coq theorems (Properties/C18.v) over ALL event histories of {message received, pong for generation g, pong callback, tick at t, server datagram-path tick}: every trace of the model of inactivity.Monitor + KeepAlive (as wired by options.WithKeepAlive) passes the property judge written from the property text (closed only if idle for a full period, closed/acted at the first idle tick, keep-alive closes exactly at failure max+1 counted since the last received message or credited pong, late pongs not credited). Model tied to the real Monitor/KeepAlive, udp and tcp client Conn, pkg/connections and the udp server by differential evaluation of event histories on a nanosecond-exact virtual clock.',
+        'level_note': 'Trusted: Coq kernel + vm_compute, the harness and its virtual clock. Sequential model of the atomics (one event at a time). On the udp server datagram path the idle distance is produced by moving the activity stamp (reflect+unsafe) and bracketing the real clock read of getConn.',
+        'explanation': 'Theorems: model traces satisfy the judge for all histories (C18_spec_all) with corollaries only_if_idle, first_tick, keepalive_close, reset, late_pong. Correspondence: histories with spacings at period -200ms/-1ns/0/+1ns/+200ms, several ticks per period, pongs for old pings, retry limits 0-3, failing ping writes, on inactivity.Monitor/KeepAlive directly, through pkg/connections, through a udp client Conn over an in-memory session, a tcp client Conn over a pipe and the udp server (periodic tick + datagram path with the generated look-ahead), all wired by the options package.',
     },
     'C19': {
         'run_vo': 'Block/Run.vo', 'props_vo': 'Properties/C19.vo', 'level': 'proof',
